@@ -954,6 +954,19 @@ impl<Db: Database> Storage<Db> {
 //@end
 }
 impl<T> MemoRef<T> {
+//@fn rel=crates/pico/src/memo_ref.rs name=lookup within="impl<T: 'static> MemoRef<T>" vis=pub ret=r serves=C03
+//@rw R2
+//@hsub "<'db>\(&self, db: &'db dyn DatabaseDyn\)" => "<'db, Db: Database>(&self, storage: &'db Storage<Db>)"
+//@sub "let storage = db\.get_storage_dyn\(\);" => "" n=1
+//@sub "value\s*\.downcast_ref::<T>\(\)\s*\.unwrap\(\)" => "downcast_held::<T>(value)" n=1
+//@sub "unsafe \{\s*value\s*\.downcast_ref::<RawPtr<T>>\(\)\s*\.unwrap\(\)\s*\.as_ref\(\)\s*\}" => "downcast_target::<T>(value)" n=1
+//@contract
+        requires storage.internal.dwf(), storage.internal.dhas(self.derived_node_id),
+        ensures
+            // C03: the (untracked) read follows the revision as it is NOW
+            self.kind == MemoRefKind::Value ==> *r == held::<T>(storage.internal.derived_nodes@[storage.internal.drev(self.derived_node_id).node_index.idx as int].value),
+            self.kind == MemoRefKind::RawPtr ==> *r == target::<T>(storage.internal.derived_nodes@[storage.internal.drev(self.derived_node_id).node_index.idx as int].value), //@O C03.O-5_untracked_lookup_follows_the_current_revision
+//@end
 //@fn rel=crates/pico/src/memo_ref.rs name=lookup_tracked within="impl<T: 'static> MemoRef<T>" vis=pub ret=r serves=C01,C03
 //@rw R2
 //@hsub "<'db>\(&self, db: &'db dyn DatabaseDyn\)" => "<'db, Db: Database>(&self, storage: &'db mut Storage<Db>)"
